@@ -224,7 +224,26 @@ def run_case_spec(ctx, case):
       return run_sharded(spec, case['W'], case['K'], case['ibs'], None)
     return run_interleaved(spec, case['W'], case['buf'], case['with_pool'])
 
-  finished, res, exc = cwork.run_with_watchdog(go, 120)
+  # Seeded transport latencies (no faults): some replies are held back for a few
+  # to a few dozen milliseconds, so acknowledgements and data race differently.
+  import courier
+  drng = random.Random(repr(sorted(case.items(), key=str)))
+  if case.get('delays', True) and drng.random() < 0.6:
+    slow_p = drng.choice([0.1, 0.3])
+    lock = __import__('threading').Lock()
+
+    def reply_delay(addr, method):
+      if method == 'heartbeat':
+        return 0
+      with lock:
+        r = drng.random()
+        return drng.choice([0.005, 0.02, 0.06]) if r < slow_p else 0
+
+    courier.sim.reply_delay = reply_delay
+  try:
+    finished, res, exc = cwork.run_with_watchdog(go, 120)
+  finally:
+    courier.sim.reply_delay = None
   if not finished:
     finished, res, exc = cwork.run_with_watchdog(go, 120)
     if not finished:
